@@ -326,9 +326,11 @@ def slot_kind(prog, fn, pv, vl, agg, name):
             x = withel[0][0]
             dflt = without[0][0]
             inner = None
-            if x[0] == "tryok" and is_call(x[1], TRY_ARRAY_CONVERT) and x[1][2][0] == elem and is_call(dflt, VEC_NEW):
+            popped = ("field", ("variant", elem, "Some"), "0")     # `match tail.pop() { Some(v) => .., None => default }`
+            if x[0] == "tryok" and is_call(x[1], TRY_ARRAY_CONVERT) and x[1][2][0] in (elem, popped) and is_call(dflt, VEC_NEW):
                 inner = "array<%s>" % _converter_type(prog, x[1][2][1])
-            if x[0] == "aggr" and x[2] == "Some" and x[3][0][1] == ("tryok", ("call", TRY_BYTES, (elem,), x[3][0][1][1][3] if x[3][0][1][0] == "tryok" else None)) \
+            if x[0] == "aggr" and x[2] == "Some" and x[3][0][1][0] == "tryok" and is_call(x[3][0][1][1], TRY_BYTES) \
+                    and x[3][0][1][1][2][0] in (elem, popped) \
                     and dflt[0] == "aggr" and dflt[2] == "None":
                 inner = "bstr"
             if inner:
